@@ -178,7 +178,7 @@ impl<'a> World<'a> {
             let gates = hooks::gates_pending();
             let total = gates.len() + self.open.len();
             if total == 0 {
-                if self.file_mode && waited < 50_000 {
+                if self.file_mode && waited < 600_000 {
                     // the only thing that can be under way is one file system call on the blocking pool; the client
                     // task awaits it and nothing else runs meanwhile, so waiting for it decides nothing
                     waited += 1;
@@ -580,6 +580,10 @@ impl<'a> World<'a> {
                     }
                     Some(Err(e)) => {
                         self.rep.violate("C14", "round_trip_failed", &sig[..if via == 0 { 1 } else { 2 }], format!("{via_name} failed although every chunk was served: {e}"));
+                    }
+                    None if via >= 2 => {
+                        // a minute of real time without the blocking pool finishing one file system call: the machine, not the code
+                        self.rep.harness_error = Some(format!("{via_name}: the file system work on the blocking pool did not finish within a minute of real time"));
                     }
                     None => {
                         self.rep.violate("C14", "round_trip_stuck", &[], format!("{via_name} never completed although nothing is pending"));
